@@ -34,6 +34,15 @@ func parseTextDescription(data []byte) (TextDescription, error) {
 		return desc, err
 	}
 
+	// The count includes the terminating null; a count of zero means there
+	// is no ASCII description at all.
+	if asciiCount == 0 {
+		return desc, nil
+	}
+	if uint64(asciiCount) > uint64(reader.Len()) {
+		return desc, fmt.Errorf("ASCII description length %d exceeds tag data length", asciiCount)
+	}
+
 	asciiBytes := make([]byte, asciiCount-1)
 	for i := 0; i < len(asciiBytes); i++ {
 		asciiBytes[i], err = reader.ReadByte()
